@@ -263,6 +263,10 @@ fn check_flush(c: &FlushCase, ctx: &mut CaseCtx) {
 fn flush_inner(c: &FlushCase) -> Result<bool, (String, String)> {
     let mut cache = Cache::new();
     let is_addr = c.kind == 2 || c.kind == 3;
+    if c.old_ttl <= 1 {
+        // not kept in the first place (see below: what a goodbye for an unknown record looks like)
+        return Ok(false);
+    }
     set_thread_clock(Some(T));
     let (old, intf_old) = flush_rec(c.kind, false, false, true, c.old_ttl, 0, false);
     cache.add_or_update(&intf_old, old, true);
@@ -345,6 +349,9 @@ fn flush_inner(c: &FlushCase) -> Result<bool, (String, String)> {
     if c.same_name && !identical {
         match views.iter().find(is_new) {
             Some(v) if v.rec.created == t_new && v.rec.expires == t_new + c.new_ttl as u64 * 1000 => {}
+            // a record with one second to live that is not in the cache is what a goodbye
+            // (TTL 0) for an unknown record looks like after decoding: it is not kept
+            None if c.new_ttl <= 1 => {}
             other => return Err(("C11/flush/new-record-lifetime".into(), format!("new record view {other:?}"))),
         }
     }
@@ -547,7 +554,7 @@ fn wire_strategy() -> BoxedStrategy<br::Case> {
         5 => announce,
         2 => single,
         6 => prop_oneof![Just(1000u64), Just(8000), Just(20_000), Just(100_000), 0u64..30_000, 0u64..250_000].prop_map(|ms| BOp::Advance { ms }),
-        1 => (any::<bool>(), prop_oneof![Just(0u64), Just(100)]).prop_map(|(on, delay_ms)| BOp::Responder { on, delay_ms }),
+        1 => (any::<bool>(), prop_oneof![Just(0u64), Just(100)]).prop_map(|(on, delay_ms)| BOp::Responder { on, delay_ms, mute: 0 }),
     ];
     (iftable(2), proptest::collection::vec(crate::props::c03::inst_strategy(false), 1..=2), proptest::collection::vec(op, 2..12), prop_oneof![Just(30_000u64), Just(250_000)])
         .prop_map(|(ifs, mut insts, ops, tail_ms)| {
@@ -573,7 +580,7 @@ fn wire_strategy() -> BoxedStrategy<br::Case> {
 pub fn run(tier: Tier) -> i32 {
     let mut agg = Agg::new("C11", tier);
     agg.assume("component part: records and cache are driven through the delegation-only facade (src/verif/component.rs) under a thread-local virtual clock; TTL 0 is exercised through the decode path by C03/C05/C17");
-    agg.assume("cache-flush at an age of exactly 1000 ms is left open; a record identical to the flushing one is a fresh copy, not a flushed one");
+    agg.assume("a record with TTL <= 1 s that is not in the cache yet is indistinguishable from a goodbye for an unknown record after decoding and is not kept (fix recorded under C13); cache-flush at an age of exactly 1000 ms is left open; a record identical to the flushing one is a fresh copy, not a flushed one");
     agg.assume("wire part: simulation with exact wake-ups; a copy's refresh marks are judged until the next copy of the same record, a cache-flush record of the same name and type, its expiry or the end of the history, and only while the search that needs it is open (type browsed; for SRV/TXT the instance reported found; for addresses an unexpired SRV of a found instance points at the host)");
     let n_ttl: u64 = tier.pick(3000, 20000);
     run_enumerated(
